@@ -14,12 +14,15 @@ THEOREMS = [
     'OpenHTF.AdbConn.c15_exactly_one_clse_and_id_released',
     'OpenHTF.AdbConn.c15_illegal_midsession_raises',
     'OpenHTF.AdbConn.c15_open_result',
+    'OpenHTF.AdbConn.c15_buffered_data_is_handed_out_first',
+    'OpenHTF.AdbConn.c15_read_leaves_the_rest_buffered',
+    'OpenHTF.AdbConn.c15_close_keeps_buffer',
 ]
 PENDING = ['drain-then-closed and routing of other streams\' packets are carried by the model (readForStream/readStream) and '
            'the tie; their invariants are part of C14']
 RULE = ('H: every device reply sequence of length<=4 (quick) / <=5 (thorough) over {CNXN ok, CNXN bad banner, AUTH token, '
         'AUTH other, noise} with 0-2 keys; I: id allocation with the limit patched to 8 and to the real value, every '
-        '_last_id_used and live subsets incl. exhaustion and wrap-around; S: open/close/read/remote-close histories of '
+        '_last_id_used and live subsets incl. exhaustion and wrap-around; S: open/close/read(length)/remote-close histories of '
         'length<=4 over 1-2 streams with device scripts of OKAY/WRTE/CLSE/illegal packets (limit patched to 8); observed: '
         'packets received by the fake device, return values/exceptions')
 ASSUMPTIONS = ['single host thread (thread interleavings are C14)', 'a blocked read ends because the scripted device runs out of data (UsbReadFailedError), never by real-time expiry (timeouts are 600 s)']
@@ -188,7 +191,7 @@ def run_real(case):
             res.append('ok')
           elif op[0] == 'R':
             if op[1] in streams:
-              d = streams[op[1]].read(timeout_ms=600000)
+              d = streams[op[1]].read(op[2] if len(op) > 2 else 0, timeout_ms=600000)
               res.append('d:' + '.'.join(str(ord(c) - 65) for c in d))
             else:
               res.append('err:closed')
@@ -212,7 +215,8 @@ def encode(case, obs):
     return 'C15 H %d %d %s # %s' % (case['nkeys'], len(case['replies']), ' '.join(rt(r) for r in case['replies']), ' '.join(obs))
   if k == 'I':
     return 'C15 I %d %d %d %s # %s' % (case['limit'], case['last'], len(case['live']), ' '.join(map(str, case['live'])), ' '.join(obs))
-  ops = ' '.join('O' if o[0] == 'O' else '%s:%d' % (o[0], o[1]) for o in case['ops'])
+  ops = ' '.join('O' if o[0] == 'O' else ('R:%d:%d' % (o[1], o[2] if len(o) > 2 else 0) if o[0] == 'R' else '%s:%d' % (o[0], o[1]))
+                 for o in case['ops'])
   dev = ' '.join({'K': lambda m: 'K:%d:%d' % (m[1], m[2]), 'W': lambda m: 'W:%d:%d:%d' % (m[1], m[2], m[3]),
                   'Z': lambda m: 'Z:%d:%d' % (m[1], m[2]), 'I': lambda m: 'I'}[m[0]](m) for m in case['dev'])
   line = 'C15 S %d %d %d %s %d %s # %s' % (case['limit'], case['last'], len(case['ops']), ops, len(case['dev']), dev, ' '.join(obs))
@@ -286,10 +290,12 @@ def gen_cases(rng, tier):
     for _ in range(r.randint(0, 3)):
       b = r.random()
       if b < 0.35:
-        ops.append(['R', nxt])
-        if r.random() < 0.7:
+        # read(length): several WRTEs may be needed; what is left over must be handed out by later reads, also after a
+        # local close or the device's CLSE (drain, then closed)
+        ops.append(['R', nxt, r.choice([0, 0, 1, 2, 3])])
+        for _ in range(r.choice([0, 1, 1, 2, 3])):
           dev.append(['W', 20, nxt, r.randrange(5)])
-        if r.random() < 0.25:
+        if r.random() < 0.3:
           dev.append(['Z', 20, nxt])
       elif b < 0.55:
         ops.append(['X', nxt])
